@@ -13,7 +13,11 @@ META = {
                   "sub-command of the 8 families x 10 input classes x option flag and the create/list/info/extract pipeline product; (C) the real binary is run as "
                   "a process on files made with the library's own writers (and damaged copies the library is asked about first); (D) TLC evaluates the "
                   "obligations on every recorded run.",
-    "level_note": "Failure classes are relative to the library's verdict on the same bytes (same entry point as the sub-command where they differ: wmo convert). "
+    "level_note": "Widened by class (round 4): every producer on valid input meets every pre-state of its output location {empty, shorter, longer, directory, read-only file} and must "
+                  "produce the same file (token + length) as into a fresh location; listings are compared with the library view per output-format option (mpq list plain/--long/"
+                  "--filter, wdt tiles text/csv/json, dbc export json/csv row counts) over name classes {lower, UPPER, MiXed, nested, with spaces, non-ASCII}; validate flags "
+                  "(blp --strict, wdl --version) are exercised on files that violate only the flag's rule, the library being asked per flag. "
+                  "Failure classes are relative to the library's verdict on the same bytes (same entry point as the sub-command where they differ: wmo convert). "
                   "Damage that the library tolerates creates no obligation. Only `validate` output is scanned for a printed failure verdict. Conversions are "
                   "checked for existence + re-parse of the output, not for semantic equality. mpq db (touches the user's database directory), dbd and "
                   "completions are not exercised. Archive members are <= VERIF_C20_MAXFILE bytes (default 4000: single sector, so that C01's findings on multi-sector files do not resurface here; set e.g. VERIF_C20_MAXFILE=100000 to lift it). Conversions along the representable paths listed in Cli.tla (RoundTripExact) are additionally converted back and compared by token; other paths only report DRIFT. "
@@ -28,17 +32,18 @@ META = {
 
 def sig(b):
     r = b.get("rec") or {}
-    return {"ev": b.get("ev"), "fam": r.get("fam"), "cmd": r.get("cmd"), "kind": r.get("kind"), "input": r.get("input"), "opt": r.get("opt"),
+    return {"ev": b.get("ev"), "fam": r.get("fam"), "cmd": r.get("cmd"), "kind": r.get("kind"), "input": r.get("input"), "opt": r.get("opt"), "pre": r.get("pre"),
             "why": str(b.get("why", "")).strip().strip('"')}
 
 
 def run(ctx, cases_override=None):
     ctx.mc("MC_Cli", cfg="MC_Cli", workers=4, timeout=600, heap="3g")
     ctx.mc("MC_Cli", cfg="MC_Cli_deviant", workers=4, timeout=600, heap="3g")
-    rc, text = ctx.tlc("MC_Cli", "MC_Cli_refuted", workers=2, timeout=600, heap="2g", tag="refute-cli")
-    if "Invariant LastTruthful is violated" not in text:
-        raise core.ToolError("stage A: TLC did not refute LastTruthful for the deviation ValidateDeviant:\n" + core._tail(text, 15))
-    core.log("(A) MC_Cli/MC_Cli_refuted: deviation ValidateDeviant refuted as expected (LastTruthful violated)")
+    for cfg, inv, dev in (("MC_Cli_refuted", "LastTruthful", "ValidateDeviant"), ("MC_Cli_refuted2", "ExtractComplete", "ExtractKeepsStale")):
+        rc, text = ctx.tlc("MC_Cli", cfg, workers=2, timeout=600, heap="2g", tag="refute-" + cfg)
+        if f"Invariant {inv} is violated" not in text:
+            raise core.ToolError(f"stage A: TLC did not refute {inv} for the deviation {dev}:\n" + core._tail(text, 15))
+        core.log(f"(A) MC_Cli/{cfg}: deviation {dev} refuted as expected ({inv} violated)")
     if cases_override:
         cases, ncases = cases_override, sum(1 for _ in open(cases_override))
     else:
